@@ -86,7 +86,11 @@ RunWhys(r) ==
       a  == DepAdjOf(r)
       V  == IF r.mode = "targets_deps" THEN Closure(a, RangeOf(r.named)) ELSE TPaths(r.cfg)
   IN
-  IF r.doc.ok /\ r.mode # "targets" /\ ~Trusting(r) /\ Cyclic(a, V) THEN {"C09:run executed a cyclic configuration"}
+  IF "interrupted" \in DOMAIN r /\ r.interrupted
+  THEN \* monorail itself was sent a termination signal: there may be no result document at all; what was started, and
+       \* when, is still bound by the rules that need no grouping (dependencies, command order, one start per task)
+       LET acc == Fold(BasicPlanOf(r), FALSE, r.events) IN {acc.why} \ {""}
+  ELSE IF r.doc.ok /\ r.mode # "targets" /\ ~Trusting(r) /\ Cyclic(a, V) THEN {"C09:run executed a cyclic configuration"}
   ELSE IF ds # ""
   THEN LET bp  == BasicPlanOf(r)
            acc == Fold(bp, FALSE, r.events)
